@@ -176,6 +176,23 @@ theorem meta_output_generator (c : Render.Cfg) (n : Nat) (a : Attrs) (ks : List 
     out c .metaxml d = .xml (metaTree (.elem n a (ks.filter (fun k => !isGen k) ++ [genNode c.tv]))) := by
   simp [out, (normGen_meta c.tv n a ks d h).1]
 
+/-- **each folder's parts are computed from that folder's document**: for every embedded object the
+    package holds `<folder>styles.xml` and `<folder>content.xml` rendered from the object's own containers
+    (its own automatic styles, master styles and body — `_saveXmlObjects` calls `anObject.stylesxml()` /
+    `anObject.contentxml()`), and the top-level parts are rendered from the top document. -/
+theorem pkg_parts_per_document (F : Styles.Cfg) (d : Doc) :
+    (str "styles.xml", Member.xml (stylesTree F d.part)) ∈ pkg F d ∧
+    (str "content.xml", Member.xml (contentTree F d.part)) ∈ pkg F d ∧
+    ∀ o ∈ d.objects, (o.folder ++ str "styles.xml", Member.xml (stylesTree F o.part)) ∈ pkg F d ∧
+                     (o.folder ++ str "content.xml", Member.xml (contentTree F o.part)) ∈ pkg F d := by
+  refine ⟨by simp [pkg, xmlMembers], by simp [pkg, xmlMembers], ?_⟩
+  intro o ho
+  constructor
+  · simp only [pkg, xmlMembers, List.mem_append, List.mem_cons, List.mem_flatMap, List.mem_map]
+    exact Or.inl (Or.inr (Or.inl (Or.inl (Or.inl (Or.inl (Or.inr ⟨_, ⟨o, ho, rfl⟩, by simp⟩))))))
+  · simp only [pkg, xmlMembers, List.mem_append, List.mem_cons, List.mem_flatMap, List.mem_map]
+    exact Or.inl (Or.inr (Or.inl (Or.inl (Or.inl (Or.inl (Or.inr ⟨_, ⟨o, ho, rfl⟩, by simp⟩))))))
+
 /-! ### several live documents -/
 
 theorem modifyAt_other (f : Doc → Doc) (i j : Nat) (w : List Doc) (h : j ≠ i) : (modifyAt f i w)[j]? = w[j]? := by
